@@ -352,5 +352,166 @@ theorem goodAcc_pinned (cfg : CompactCfg) (w : World) (hd : w.dead = false) (hin
   unfold NoTombstoneDropped selDeltas at hn
   rw [hk, hn]
 
+/-! ### tombstone GC -/
+
+def dropped (cfg : CompactCfg) (v : RV) : Bool := v.isTombstone && v.ts.time < cfg.cutoff
+
+theorem mem_keptOf {cfg : CompactCfg} {ktd : NMap RV} {p : Nat × RV} :
+    p ∈ keptOf cfg ktd ↔ p ∈ ktd ∧ dropped cfg p.2 = false := by
+  unfold keptOf dropped
+  rw [List.mem_filter]
+  cases h1 : p.2.isTombstone <;> cases h2 : decide (p.2.ts.time < cfg.cutoff) <;> simp [h1, h2]
+
+/-- decidable: every tombstone this compaction would drop belongs to a key that occurs in no
+    listed segment outside the compaction -/
+def GcSafe (st : Store) (cfg : CompactCfg) : Prop :=
+  ∀ p ∈ foldState (selDeltas st cfg), dropped cfg p.2 = true →
+    ∀ q ∈ segDeltas st (removeIds (manifestOf st 0) ((selectSegments cfg (manifestOf st 0)).map (·.id))),
+      q.1 ≠ p.1
+
+instance (st : Store) (cfg : CompactCfg) : Decidable (GcSafe st cfg) := by
+  unfold GcSafe; infer_instance
+
+theorem selectSegments_congr {cfg : CompactCfg} {m m' : Manifest} (h : m.segments = m'.segments) :
+    selectSegments cfg m = selectSegments cfg m' := by
+  unfold selectSegments; rw [h]
+
+theorem removeIds_congr {m m' : Manifest} (h : m.segments = m'.segments) (ids : List Nat) :
+    removeIds m ids = removeIds m' ids := by
+  unfold removeIds; rw [h]
+
+/-- **tombstone GC of the repaired compactor is safe under `GcSafe`**, for every oracle: key by
+    key the folded content is unchanged, except that a key whose merged value is a tombstone below
+    the cutoff may have disappeared. -/
+theorem compact_gc_safe (c : Carrier) (fl : CompactFlags) (hm : fl.mergeInsteadOfLatest = true)
+    (hnf : fl.missingOnlyNotFound = true) (F : Oracle) (cfg : CompactCfg) (sz : Nat) (w : World)
+    (hinv : StoreInv w.store) (hcar : InCar c (content w.store)) (hsafe : GcSafe w.store cfg) (k : Nat) :
+    NMap.get (foldState (content (compactWith fl F cfg sz w).1.store)) k = NMap.get (foldState (content w.store)) k ∨
+    (NMap.get (foldState (content (compactWith fl F cfg sz w).1.store)) k = none ∧
+      ∃ T, NMap.get (foldState (content w.store)) k = some T ∧ dropped cfg T = true) := by
+  rcases (compact_spec fl F cfg sz w hinv).2 with h | ⟨w1, m, hl, hnfail, hcont⟩
+  · rw [h]; exact Or.inl rfl
+  · have hst1 : w1.store = w.store := by
+      have := loadOrCreate_store F w 0
+      rw [hl] at this
+      exact this
+    have hback := backed_of_load hinv hl
+    have hsegs := segments_of_load hl
+    have hselp : ∀ s ∈ selectSegments cfg m, ∃ ds, NMap.get w1.store (segName s.id) = some (.segment ds) := by
+      intro s hs
+      rw [hst1]
+      exact (hback.1 s (mem_selectSegments hs)).2
+    rcases loadLoop_repaired fl hnf F w1 LoadAcc.init (selectSegments cfg m) hselp with h | ⟨h1, h2⟩
+    · rw [h] at hnfail; cases hnfail
+    · rw [h1, h2, hm, foldl_keepStep_merge, hst1] at hcont
+      simp only [LoadAcc.init, List.nil_append] at hcont
+      have hsel : selectSegments cfg m = selectSegments cfg (manifestOf w.store 0) :=
+        selectSegments_congr hsegs.symm
+      have hrem : removeIds m ((selectSegments cfg m).map (·.id)) =
+          removeIds (manifestOf w.store 0) ((selectSegments cfg (manifestOf w.store 0)).map (·.id)) := by
+        rw [hsel]; exact removeIds_congr hsegs.symm _
+      have hB : applyAll [] (segDeltas w.store (selectSegments cfg m)) = foldState (selDeltas w.store cfg) := by
+        unfold selDeltas foldState; rw [hsel]
+      rw [hB, hrem] at hcont
+      unfold GcSafe at hsafe
+      generalize hBl : selDeltas w.store cfg = B at hcont hsafe
+      generalize hRl : segDeltas w.store (removeIds (manifestOf w.store 0)
+        ((selectSegments cfg (manifestOf w.store 0)).map (·.id))) = R at hcont hsafe
+      -- the listed content is (as a set) B ∪ R
+      have hcw : ∀ d, d ∈ content w.store ↔ d ∈ B ∨ d ∈ R := by
+        intro d
+        unfold content
+        rw [← hBl, ← hRl]
+        unfold selDeltas
+        constructor
+        · intro hd
+          obtain ⟨s, hs, ds, hgs, hds⟩ := mem_segDeltas.mp hd
+          by_cases hid : s.id ∈ (selectSegments cfg (manifestOf w.store 0)).map (·.id)
+          · left
+            obtain ⟨t, ht, hte⟩ := List.mem_map.mp hid
+            exact mem_segDeltas.mpr ⟨t, ht, ds, by rw [hte]; exact hgs, hds⟩
+          · right
+            exact mem_segDeltas.mpr ⟨s, mem_removeIds.mpr ⟨hs, hid⟩, ds, hgs, hds⟩
+        · rintro (hd | hd)
+          · obtain ⟨s, hs, r⟩ := mem_segDeltas.mp hd
+            exact mem_segDeltas.mpr ⟨s, mem_selectSegments hs, r⟩
+          · obtain ⟨s, hs, r⟩ := mem_segDeltas.mp hd
+            exact mem_segDeltas.mpr ⟨s, (mem_removeIds.mp hs).1, r⟩
+      have hBsub : ∀ d ∈ B, d ∈ content w.store := fun d hd => (hcw d).mpr (Or.inl hd)
+      have hcarB : InCar c B := fun p hp => hcar p (hBsub p hp)
+      rw [get_foldState, get_foldState]
+      -- is key k dropped?
+      cases hfk : fold1 RV.merge (vals k B) with
+      | none =>
+        -- no selected delta for k: both sides see exactly the values in R
+        left
+        have hBk : vals k B = [] := by
+          cases hv : vals k B with
+          | nil => rfl
+          | cons x _ => rw [hv] at hfk; simp [fold1] at hfk
+        apply fold1_eq_of_same_set (c.aci k)
+        · intro y hy
+          have hy' := mem_vals.mp hy
+          rcases (hcont (k, y)).mp hy' with h | h
+          · have := mem_foldState_iff.mp (mem_keptOf.mp h).1
+            rw [hfk] at this; cases this
+          · exact inCar_vals hcar k y (mem_vals.mpr ((hcw _).mpr (Or.inr h)))
+        · intro y
+          rw [mem_vals, mem_vals]
+          constructor
+          · intro hy
+            rcases (hcont (k, y)).mp hy with h | h
+            · have := mem_foldState_iff.mp (mem_keptOf.mp h).1
+              rw [hfk] at this; cases this
+            · exact (hcw _).mpr (Or.inr h)
+          · intro hy
+            rcases (hcw _).mp hy with h | h
+            · have : y ∈ vals k B := mem_vals.mpr h
+              rw [hBk] at this; cases this
+            · exact (hcont _).mpr (Or.inr h)
+      | some T =>
+        have hTmem : (k, T) ∈ foldState B := mem_foldState_iff.mpr hfk
+        cases hdT : dropped cfg T with
+        | true =>
+          right
+          have hnoR : ∀ q ∈ R, q.1 ≠ k := fun q hq => hsafe (k, T) hTmem hdT q hq
+          have hempty : vals k (content (compactWith fl F cfg sz w).1.store) = [] := by
+            cases hv : vals k (content (compactWith fl F cfg sz w).1.store) with
+            | nil => rfl
+            | cons y _ =>
+              have hy : (k, y) ∈ content (compactWith fl F cfg sz w).1.store := mem_vals.mp (by rw [hv]; simp)
+              rcases (hcont (k, y)).mp hy with h | h
+              · obtain ⟨hmem, hnd⟩ := mem_keptOf.mp h
+                have := mem_foldState_iff.mp hmem
+                rw [hfk] at this
+                cases this
+                rw [hdT] at hnd; cases hnd
+              · exact absurd rfl (hnoR _ h)
+          refine ⟨by rw [hempty]; rfl, T, ?_, hdT⟩
+          rw [← hfk]
+          apply fold1_eq_of_same_set (c.aci k) (inCar_vals hcar k)
+          intro y
+          rw [mem_vals, mem_vals]
+          constructor
+          · intro hy
+            rcases (hcw _).mp hy with h | h
+            · exact h
+            · exact absurd rfl (hnoR _ h)
+          · exact fun hy => hBsub _ hy
+        | false =>
+          left
+          apply fold1_replace (c.aci k) (B := vals k B) (inCar_vals hcar k)
+          · intro y hy
+            exact mem_vals.mpr (hBsub _ (mem_vals.mp hy))
+          · intro y hy
+            rcases (hcont (k, y)).mp (mem_vals.mp hy) with h | h
+            · exact Or.inr (mem_foldState_iff.mp (mem_keptOf.mp h).1)
+            · exact Or.inl (mem_vals.mpr ((hcw _).mpr (Or.inr h)))
+          · intro y hy
+            rcases (hcw _).mp (mem_vals.mp hy) with h | h
+            · refine Or.inr ⟨mem_vals.mpr h, T, hfk, ?_⟩
+              exact mem_vals.mpr ((hcont _).mpr (Or.inl (mem_keptOf.mpr ⟨hTmem, hdT⟩)))
+            · exact Or.inl (mem_vals.mpr ((hcont _).mpr (Or.inr h)))
+
 end Stream
 end RedisVerif
